@@ -40,6 +40,7 @@ func init() {
 			// draws of c20Run: scenario(1 option) , mode, transport/type, value, code
 			return []uint32{0, uint32(idx / 65536), uint32((idx / 256) % 256), uint32(idx % 256)}, true
 		},
+		Require: []string{"company.0", "company.1", "company.2", "company.3"},
 		Assume: []string{
 			"specification function written from RFC 7967: class = code>>5; suppressed iff (class 2 and value&2) or (class 4 and value&8) or (class 5 and value&16)",
 			"nothing here depends on the schedule; the property is claimed for the wire-level consequence, which only an endpoint in a (simulated) network shows",
